@@ -274,19 +274,45 @@ pub fn handmade_text_message(r: &mut Rng, n: usize, sh: bool) -> Vec<u8> {
     let raw = r.coin();
     let w16 = |x: u16| if be { x.to_be_bytes() } else { x.to_le_bytes() };
     let w32 = |x: u32| if be { x.to_be_bytes() } else { x.to_le_bytes() };
+    // exactly n bytes of text without NUL: line breaks, tabs, other control characters, blanks and multi-byte characters included
+    // (what an ECU really logs; the crate's own writer is not involved in laying it out)
+    let text_bytes = |r: &mut Rng, n: usize| -> Vec<u8> {
+        if r.one_in(3) { return vec![b'q'; n]; }
+        let mut t = String::new();
+        let mut tries = 0;
+        while t.len() < n && tries < 64 { tries += 1; for ch in r.text(8).chars() { if t.len() + ch.len_utf8() <= n { t.push(ch); } } }
+        if n >= 2 && r.one_in(3) { t.truncate(t.char_indices().map(|(i, _)| i).filter(|i| *i <= n - 2).last().unwrap_or(0)); t.push_str(*r.pick(&["\r\n", "\n", "\t", " "])); }
+        let mut v = t.into_bytes();
+        while v.len() < n { v.push(b'q'); }
+        v.truncate(n);
+        v
+    };
+    // variable info: names (and a unit) with blanks, tabs, line breaks, leading / trailing blanks
+    let vari = r.one_in(3);
+    let name: &str = *r.pick(&["engine speed", "last error", "a\tb", "x\ny", " lead", "trail ", "nm", "", "door open "]);
     let mut p: Vec<u8> = vec![];
     if raw {
-        p.extend(w32(0x0000_0400));                       // RAWD
+        p.extend(w32(0x0000_0400 | if vari { 0x800 } else { 0 }));     // RAWD
         p.extend(w16(n as u16));
+        if vari { p.extend(w16(name.len() as u16 + 1)); p.extend(name.as_bytes()); p.push(0); }
         p.extend(r.bytes(n));
     } else {
-        p.extend(w32(0x0000_0200 | (1 << 15)));           // STRG, UTF-8
+        p.extend(w32(0x0000_0200 | (1 << 15) | if vari { 0x800 } else { 0 }));   // STRG, UTF-8
         p.extend(w16((n + 1) as u16));
-        p.extend(std::iter::repeat(b'q').take(n));
+        if vari { p.extend(w16(name.len() as u16 + 1)); p.extend(name.as_bytes()); p.push(0); }
+        p.extend(text_bytes(r, n));
         p.push(0);
     }
-    p.extend(w32(0x0000_0042));                           // UINT 16 bit
-    p.extend(w16(0xBEEF));
+    if vari {
+        let unit: &str = *r.pick(&["rpm", "km / h", "", "m\ts"]);
+        p.extend(w32(0x0000_0042 | 0x800));                   // UINT 16 bit with name and unit
+        p.extend(w16(name.len() as u16 + 1)); p.extend(w16(unit.len() as u16 + 1));
+        p.extend(name.as_bytes()); p.push(0); p.extend(unit.as_bytes()); p.push(0);
+        p.extend(w16(0xBEEF));
+    } else {
+        p.extend(w32(0x0000_0042));                       // UINT 16 bit
+        p.extend(w16(0xBEEF));
+    }
     let mut b: Vec<u8> = vec![];
     // storage time: random, or 0 s 0 us (no reception clock), or 0 s with microseconds
     if sh { b.extend(b"DLT\x01"); let (a, c) = match r.below(4) { 0 => (0u32, 0u32), 1 => (0, r.next() as u32), _ => (r.next() as u32, r.next() as u32) }; b.extend(a.to_le_bytes()); b.extend(c.to_le_bytes()); b.extend(b"ECU9"); }
